@@ -228,6 +228,9 @@ pub struct Magic {
     pub with: bool,
     /// `generics` typed as darling's own `ast::Generics<ast::GenericParam>` instead of `syn::Generics`
     pub own_generics: bool,
+    /// `generics` typed `ast::Generics<ast::GenericParam<TP>>` with `TP` a derived FromTypeParam receiver:
+    /// its id. The type parameters of the input are then read by that receiver (body layer).
+    pub tparam_recv: Option<usize>,
 }
 
 #[derive(Clone, Debug)]
@@ -1051,12 +1054,18 @@ impl<'a> Gen<'a> {
                     field_recv: None,
                     with: false,
                     own_generics: false,
+                tparam_recv: None,
                 };
                 if *k == MagicKind::Data && self.rng.chance(1, 4) {
                     m.with = true;
                 }
                 if *k == MagicKind::Generics && self.rng.chance(2, 5) {
                     m.own_generics = true;
+                }
+                if *k == MagicKind::Generics && self.profile.body_recv && self.rng.chance(1, 3) {
+                    m.own_generics = true;
+                    m.wrap = Wrap::Plain;
+                    m.tparam_recv = Some(self.element_recv(Trait::TypeParam));
                 }
                 if matches!(k, MagicKind::Data | MagicKind::Fields) && self.profile.body_recv && self.rng.chance(2, 3) {
                     if *k == MagicKind::Data {
@@ -1099,6 +1108,7 @@ impl<'a> Gen<'a> {
                 field_recv: None,
                 with: false,
                 own_generics: false,
+                tparam_recv: None,
             }],
             shape: Shape::Struct(vec![]),
             generics: String::new(),
@@ -1147,6 +1157,7 @@ impl<'a> Gen<'a> {
                 field_recv: Some(f),
                 with: false,
                 own_generics: false,
+                tparam_recv: None,
             });
         }
         if tr == Trait::Field {
@@ -1157,6 +1168,7 @@ impl<'a> Gen<'a> {
                 field_recv: None,
                 with: false,
                 own_generics: false,
+                tparam_recv: None,
             });
         }
         self.recvs[id] = r;
